@@ -11,11 +11,22 @@ ROOT = os.path.dirname(os.path.dirname(os.path.abspath(__file__)))
 
 
 def needs_from_notes(text):
-    # paragraphs/sections mentioning what it needs to manifest
-    parts = re.split(r"\n(?=#+ |\*\*|- \*\*|\n)", text)
-    hits = [p.strip() for p in parts if re.search(r"need|manifest|trigger", p, re.I)]
-    out = "\n".join(hits) if hits else text
-    return out[:1500]
+    """The section(s) of the seeder's notes that say what the change needs in order to manifest."""
+    # 1. markdown sections whose heading mentions it
+    secs = re.split(r"(?m)^(#+ .*)$", text)
+    out = []
+    for i in range(1, len(secs) - 1, 2):
+        if re.search(r"need|manifest|trigger", secs[i], re.I):
+            out.append(secs[i + 1].strip())
+    if not out:
+        # 2. bold-labelled paragraphs / list items
+        for para in re.split(r"\n\s*\n", text):
+            if re.search(r"\*\*[^*]*(need|manifest|trigger)[^*]*\*\*", para, re.I):
+                out.append(para.strip())
+    if not out:
+        out = [p.strip() for p in re.split(r"\n\s*\n", text) if re.search(r"needs|manifest", p, re.I)]
+    res = "\n\n".join(out) if out else text
+    return res[:1500]
 
 
 def main():
